@@ -1022,6 +1022,34 @@ func checkC06(c *Ctx, r *Report) {
 			r.OK(key, "%d exit state(s) consistent with the %s policy", len(outs), policyName(pk))
 		}
 	}
+	// the whole producer path (not only the overflow handler) is non-blocking under the two discard policies:
+	// a check-then-act fast path with a plain send blocks when several producers race for the last slot
+	for _, root := range []*ssa.Function{a.Append, a.Write} {
+		for _, pk := range a.Policies {
+			if policyName(pk) == "Block" {
+				continue
+			}
+			key := fmt.Sprintf("C06.nonblocking:%s[%s]", fname(root), policyName(pk))
+			outs, trunc := c.runProducer(a, ro, root, pk.Value.Value, r)
+			if len(trunc) > 0 {
+				r.Undecided(key, c.pos(root.Pos()), "truncated: %v", trunc)
+				continue
+			}
+			blk := false
+			var where []string
+			for _, o := range outs {
+				if o.st.blk {
+					blk = true
+					where = o.trail
+				}
+			}
+			if blk {
+				r.Fail(key, c.pos(root.Pos()), "a path of the log call performs a blocking channel operation under the %s policy (%v): the caller can wait for the appender", policyName(pk), where)
+			} else {
+				r.OK(key, "%d exit state(s), every channel operation on every path is a select with default", len(outs))
+			}
+		}
+	}
 	// DiscardOldest must actually be able to remove (a removal path exists)
 	for _, pk := range a.Policies {
 		if policyName(pk) != "DiscardOldest" {
